@@ -277,6 +277,12 @@ class TargetSequence(EntityMethod):
         # keeps (add_as_source appends to its argument in place: a kept fragment would grow with every call)
         kept = [k_ for k_, v_ in st.fields(a["self"]).items() if v_ is result]
         out.append(("fragment-is-a-fresh-record-not-kept-by-the-entity", tm.B(isinstance(result, VObj) and not kept)))
+        # frame (C07): the wrapped plasmid is left as it was -- in particular when the rotation to the cut is by a
+        # multiple of the length and hands back the plasmid itself
+        out.append(("wrapped-record-left-untouched", tm.and_(
+            tm.B(st.get(a["self"], "record") is rec and result is not rec),
+            tm.eq(ex.models.feats_term(st, st.get(rec, "features")), f0),
+            tm.eq(ex.models.rec_text(st, rec), s))))
         return out
 
     def result(self, ex, st, a):
@@ -359,30 +365,60 @@ class AddAsSource(Contract):
     file, qual = UTL, "add_as_source"
     props = ("C09", "C08")
 
+    variants = ("whole-record", "explicit-location")
+
     def setup(self, ex, st, variant):
-        return dict(src_record=ex.models.sym_record(st, "CircularRecord", "src"),
-                    dst_record=ex.models.sym_record(st, "SeqRecord", "dst", ann_keys=()))
+        a = dict(src_record=ex.models.sym_record(st, "CircularRecord", "src"),
+                 dst_record=ex.models.sym_record(st, "SeqRecord", "dst", ann_keys=()))
+        if variant == "explicit-location":
+            from pyvc.models_bio import sym_part
+            a["location"] = sym_part(st, "loc")
+        return a
+
+    def assumes(self, ex, st, a):
+        # type invariant of Bio.SeqFeature.SimpleLocation (its constructor refuses end < start)
+        loc = a.get("location")
+        if isinstance(loc, VObj) and loc.kind == "FeatureLocation":
+            return [tm.le(st.get(loc, "start").t, st.get(loc, "end").t)]
+        return []
+
+    @staticmethod
+    def _where(st, a, n):
+        """(start, end, strand) of the generated feature: the explicit location when one is passed, else [0, len(dst))"""
+        loc = a.get("location")
+        if isinstance(loc, VObj) and loc.kind == "FeatureLocation":
+            # `location or FeatureLocation(0, len(dst))`: a location object is falsy when it is empty (its __len__ is 0)
+            lo, hi, sd = st.get(loc, "start").t, st.get(loc, "end").t, st.get(loc, "strand").t
+            given = tm.ne(tm.sub(hi, lo), 0)
+            return tm.ite(given, lo, tm.I(0)), tm.ite(given, hi, n), tm.ite(given, sd, tm.I(0))
+        if loc is None or isinstance(loc, VNone):
+            return tm.I(0), n, tm.I(0)
+        from pyvc.symex import Unsupported
+        raise Unsupported("add_as_source with a location that is neither None nor a FeatureLocation")
 
     def ensures(self, ex, pre, st, a, result):
         dst, src = a["dst_record"], a["src_record"]
         n = tm.slen(ex.models.rec_text(pre, dst))
         f0 = ex.models.feats_term(pre, pre.get(dst, "features"))
         sid = pre.get(src, "id").t
-        feat = tm.app("feat", "Feat", tm.S("source"), tm.I(0), n, tm.I(0),
+        lo, hi, strand = self._where(pre, a, n)
+        feat = tm.app("feat", "Feat", tm.S("source"), lo, hi, strand,
                       tm.app("quals:label,mol_type,organism,plasmid", "Quals", tm.concat("source: ", sid),
                              tm.S("other DNA"), tm.S("synthetic DNA construct"), sid))
         return [("returns-dst", tm.B(result is dst)),
                 ("appends-one-source-feature-covering-dst",
                  tm.eq(ex.models.feats_term(st, st.get(dst, "features")), tm.app("feats_snoc", FEATS, f0, feat))),
                 ("text-untouched", tm.eq(ex.models.rec_text(st, dst), ex.models.rec_text(pre, dst))),
-                ("src-untouched", tm.B(st.fields(src) == pre.fields(src)))]
+                # (when the caller passes the same object as source and destination, the append above is all that happens to it)
+                ("src-untouched", tm.B(src is dst or st.fields(src) == pre.fields(src)))]
 
     def result(self, ex, st, a):
         dst, src = a["dst_record"], a["src_record"]
         n = tm.slen(ex.models.rec_text(st, dst))
         f0 = ex.models.feats_term(st, st.get(dst, "features"))
         sid = st.get(src, "id").t
-        feat = tm.app("feat", "Feat", tm.S("source"), tm.I(0), n, tm.I(0),
+        lo, hi, strand = self._where(st, a, n)
+        feat = tm.app("feat", "Feat", tm.S("source"), lo, hi, strand,
                       tm.app("quals:label,mol_type,organism,plasmid", "Quals", tm.concat("source: ", sid),
                              tm.S("other DNA"), tm.S("synthetic DNA construct"), sid))
         st = st.set(dst, "features", VT(tm.app("feats_snoc", FEATS, f0, feat), "list"))
